@@ -16,8 +16,13 @@ HC = "half_connection::HalfConnection::"
 
 
 def run(cx):
+    sync_reply_mechanism(cx, "C11.a", "C11.b")
+    rest(cx)
+
+
+def sync_reply_mechanism(cx, ida, idb):
     R = cx.R
-    with cx.instance("C11.a", "T2 PAIR", "handle_sync_frame sets sync_reply on all paths and forwards both optional ids", floor=3) as inst:
+    with cx.instance(ida, "T2 PAIR", "handle_sync_frame sets sync_reply on all paths and forwards both optional ids", floor=3) as inst:
         b = R.body(HC + "handle_sync_frame")
         ws = [l for l, node, ps in b.field_writes(r"arg1\.sync_reply") if show(b.rvalue_expr(node["rv"])) == "true"]
         cx.followed_by(inst, b, [(Loc(0, -1), "entry of handle_sync_frame")], ws, "sync without reply", "sync_reply = true")
@@ -40,7 +45,7 @@ def run(cx):
                         if fa.edge_lits.get((bb, y, lb[1])) == ["is(arg2.%s,Some)" % fld]:
                             if b.reach_exit_avoiding(Loc(y, -1), [l for l, _ in cs]) is not None:
                                 inst.violation(b.path, callee + " skipped", "a sync frame carrying %s can be handled without calling %s" % (fld, callee))
-    with cx.instance("C11.b", "T2 PAIR", "a scheduled sync reply yields an ack frame even with no groups; sync_reply is cleared only by a send", floor=3) as inst:
+    with cx.instance(idb, "T2 PAIR", "a scheduled sync reply yields an ack frame even with no groups; sync_reply is cleared only by a send", floor=3) as inst:
         b = R.body(HC + "emit_ack_frames")
         pd = call_sites(b, "AckFrameEmitter::push_dud")
         cx.guard(inst, b, pd, [[r"arg1\.sync_reply"]], construct="push_dud outside sync reply")
@@ -83,6 +88,10 @@ def run(cx):
             inst.violation(cb.path, "sync_reply clear", "the ack emit callback no longer clears sync_reply (acks would be forced forever) or does not capture it")
         else:
             cx.preceded_by(inst, cb, [(clr[0], "sync_reply = false")], call_locs(cb, "FrameSink::send"), "reply cleared without send", "FrameSink::send")
+
+
+def rest(cx):
+    R = cx.R
     with cx.instance("C11.c", "T7 SHAPE", "the ack emitter is built from the receiver's current frame-window and packet-window bases", floor=1) as inst:
         b = R.body(HC + "emit_ack_frames")
         for loc, t in b.calls("AckFrameEmitter::new"):
